@@ -180,7 +180,7 @@ impl NsGen {
         if self.cx.n_live() >= self.max_live {
             return false;
         }
-        let (d, base) = self.pick_dir_handle(rng);
+        let (d, base) = self.pick_busy_dir_handle(rng);
         let (pre, at) = self.prefix(rng, &base, 3);
         let r = rng.below(100);
         let name = if r < 65 {
@@ -228,9 +228,21 @@ impl NsGen {
     }
 
     /// A source path for remove / rename: an existing object nobody holds, or some name of the alphabet.
-    fn victim(&self, rng: &mut SplitMix64, base: &Key) -> Option<String> {
-        let (pre, at) = self.prefix(rng, base, 3);
-        let name = if rng.chance(7, 10) {
+    fn victim(&self, rng: &mut SplitMix64, base: &Key, pct_existing: u64) -> Option<String> {
+        let (mut pre, mut at) = self.prefix(rng, base, 3);
+        let want_existing = rng.chance(pct_existing, 100);
+        if want_existing {
+            // look for a directory that has something in it
+            for _ in 0..4 {
+                if self.cx.node(&at).map_or(false, |n| !n.kids.is_empty()) {
+                    break;
+                }
+                let (p, a) = self.prefix(rng, base, 3);
+                pre = p;
+                at = a;
+            }
+        }
+        let name = if want_existing {
             self.existing_in(rng, &at, Want::Any).unwrap_or_else(|| self.alpha(rng))
         } else if rng.chance(1, 10) {
             rng.pick(&PANICKY).to_string()
@@ -248,17 +260,29 @@ impl NsGen {
         }
     }
 
+    /// A directory handle, preferring one whose directory is not empty.
+    fn pick_busy_dir_handle(&self, rng: &mut SplitMix64) -> (u32, Key) {
+        let mut r = self.pick_dir_handle(rng);
+        for _ in 0..3 {
+            if self.cx.node(&r.1).map_or(false, |n| !n.kids.is_empty()) {
+                break;
+            }
+            r = self.pick_dir_handle(rng);
+        }
+        r
+    }
+
     pub fn op_remove(&mut self, rng: &mut SplitMix64) -> bool {
-        let (d, base) = self.pick_dir_handle(rng);
-        let Some(path) = self.victim(rng, &base) else { return false };
+        let (d, base) = self.pick_busy_dir_handle(rng);
+        let Some(path) = self.victim(rng, &base, 72) else { return false };
         self.cx.step(Op::Remove { d, path: path.into_bytes() });
         self.cx.resync();
         true
     }
 
     pub fn op_rename(&mut self, rng: &mut SplitMix64) -> bool {
-        let (d, base) = self.pick_dir_handle(rng);
-        let Some(src) = self.victim(rng, &base) else { return false };
+        let (d, base) = self.pick_busy_dir_handle(rng);
+        let Some(src) = self.victim(rng, &base, 88) else { return false };
         let (d2, base2) = if rng.chance(1, 2) { (d, base.clone()) } else { self.pick_dir_handle(rng) };
         let (pre, at) = self.prefix(rng, &base2, 2);
         let name = match rng.below(20) {
@@ -266,7 +290,16 @@ impl NsGen {
             3 => rng.pick(&INVALID).to_string(),
             _ => self.alpha(rng),
         };
-        let dst = Self::decorate(rng, Self::join(&pre, &name));
+        let mut dst = Self::decorate(rng, Self::join(&pre, &name));
+        if rng.chance(3, 5) {
+            // prefer a destination that is free
+            for _ in 0..3 {
+                if !matches!(self.cx.resolve(&base2, &dst), Resolved::Found { .. }) {
+                    break;
+                }
+                dst = Self::join(&pre, &self.alpha(rng));
+            }
+        }
         let last = last_component(&dst);
         if is_panicky(last) || last == "." || last == ".." {
             return false;
@@ -342,6 +375,15 @@ impl NsGen {
             return false;
         }
         for _ in 0..8 {
+            // while the volume is nearly empty most lookups would just say NotFound: populate first
+            let sparse = self.cx.all_files().len() + self.cx.all_dirs().len() < 4;
+            if sparse && rng.chance(2, 3) {
+                let dir = rng.chance(2, 5);
+                if self.op_create(rng, dir) {
+                    return true;
+                }
+                continue;
+            }
             let done = match rng.below(100) {
                 0..=19 => self.op_create(rng, false),
                 20..=31 => self.op_create(rng, true),
